@@ -334,6 +334,33 @@ def search(ctx):
             ctx.violation("C19:rotated-raises:%s" % kindc,
                           "Scatterers.rotated raises %s when a member is a %s" % (type(ex).__name__, kindc),
                           dict(kind="composite", op="rotated", centers=cs.tolist(), angles=ang, members=kindc))
+    # composites built by set operations (union / difference / intersection of two spheres): rotated and translated rigidly too
+    from holopy.scattering.scatterer import Union, Difference, Intersection
+    for i in range(ctx.n(9, 60)):
+        cls = [Union, Difference, Intersection][i % 3]
+        c1, c2 = rng.normal(size=3) * 2, rng.normal(size=3) * 2
+        ang = rand_angles(rng)
+        v = rng.normal(size=3) * 3
+        ctx.tried("csg", (cls.__name__, tuple(np.round(ang, 4)), i))
+        info = dict(kind="csg", op=cls.__name__, centers=[c1.tolist(), c2.tolist()], angles=list(ang), v=v.tolist())
+        try:
+            sc = cls(Sphere(n=1.5, r=1.0, center=tuple(c1)), Sphere(n=1.5, r=0.8, center=tuple(c2)))
+            ro = sc.rotated(*ang)
+            a1, a2 = np.asarray(ro.s1.center, dtype=float), np.asarray(ro.s2.center, dtype=float)
+            d0, d1 = float(np.linalg.norm(c1 - c2)), float(np.linalg.norm(a1 - a2))
+            if not (abs(d0 - d1) <= 1e-10 * (1 + d0)):
+                ctx.violation("C19:rotated:csg", "%s of two spheres rotated by %s: the distance between its members changes from %.6g to %.6g" % (cls.__name__, np.round(ang, 3).tolist(), d0, d1), info)
+            else:
+                piv = np.asarray(sc.center, dtype=float)
+                R = np.asarray(hm.rotation_matrix(*ang))
+                w1, w2 = piv + R @ (c1 - piv), piv + R @ (c2 - piv)
+                if not (max(np.abs(a1 - w1).max(), np.abs(a2 - w2).max()) <= 1e-10 * (1 + np.abs(w1).max() + np.abs(w2).max())):
+                    ctx.violation("C19:rotated:csg-pivot", "%s rotated: members are not at pivot + R (c - pivot) for the documented rotation matrix" % cls.__name__, info)
+            tr = sc.translated(*v)
+            if not (max(np.abs(np.asarray(tr.s1.center) - (c1 + v)).max(), np.abs(np.asarray(tr.s2.center) - (c2 + v)).max()) <= 1e-12 * (1 + np.abs(v).max() + np.abs(c1).max() + np.abs(c2).max())):
+                ctx.violation("C19:translated:csg", "%s translated: members not shifted by the vector" % cls.__name__, info)
+        except Exception as ex:
+            ctx.violation("C19:csg-raises:%s" % type(ex).__name__, "%s rotated/translated raised %r" % (cls.__name__, ex), info)
     ctx.sample(dict(kind="search", example="round trips over all six ordered pairs; rotation matrix orthogonal/zyz/degrees; composites of 1-6 members"))
 
 
